@@ -69,6 +69,26 @@ PROPS["C17"] = {
     "assumptions": ["tokio::time::Instant::now replaced by a harness clock"],
 }
 
+PROPS["C01"] = {
+    # quick tier leaves the slowest families to their own property's check and to C01's thorough tier
+    "quick_exclude": r"^vk_c16_|^vk_c20_|^vk_c06_(format_n249|parse_body_n249|parse_body_n250|crc_increment_block16|calc_crc_is_fold)|^vk_c10_pair_",
+    "level_text": "Panic-freedom (explicit panics, unwrap/expect, index and slice bounds, arithmetic overflow, division) and loop termination of the synchronous functions that sit between the socket and the session, each proved for its full input domain under the type invariant by the verifier's built-in checks: link parser/reader arithmetic/layer decision, transport assembler, every object codec and iterator, event buffer operations, session-level synchronous handlers, master-side pure functions. One run = every harness of every other property that is full-domain.",
+    "level_note": "NOT covered: every async fn (run loops, read_frame, write paths), so 'keeps serving a following request' and 'ends the session cleanly' are not decided; code reachable only through log arguments (shimmed); the tx-buffer unwrap in handle_operate; the app-layer dispatcher loop as a whole (each arm is covered). Discard-loop progress is bounded in buffer length (inductive argument in DESIGN).",
+    "not_covered": ["all async fns of outstation::session, master::task, link::reader::read_frame, transport writer", "Display/Debug code behind log macros", "outstation::session::handle_operate: unwrap on respond_with_status (async)"],
+}
+
+PROPS["C08"] = {
+    "level_text": "Proof by contract of the transport receiver: header codec on all 256 octets, sequence arithmetic mod 64, Assembler::assemble one step from every well-formed pre-state against a spec function written from the property (FIR restarts, non-FIR ignored when idle, continuation only with next sequence number from the same source, overflow drops, FIN completes with a fresh frame id, broadcast only FIR+FIN), buffer bytes, peek/pop/reset, and the Reader's pop/peek/reset.",
+    "level_note": "Not covered: Writer::write and Reader::read (async, PhysLayer) - so neither the sender's segmentation loop nor the read-loop guard that keeps assemble from being called while a completed fragment is untaken (stated caller precondition). Running-state buffer bytes for buffer 32 and pinned lengths at 2048 (bounded in that dimension); IPv6 source addresses excluded; multi-segment composition is the inductive argument in DESIGN.",
+    "not_covered": ["transport::real::writer::Writer::write (async): chunks of 249, FIR first, FIN last, consecutive sequence numbers", "transport::real::reader::Reader::read (async): guard `assembler.peek().is_some()` is the caller precondition of assemble"],
+}
+PROPS["C04"] = {
+    "level_text": "Proof by contract that SelectState::match_operate equals the property's predicate for all sequence numbers, frame ids, hashes, instants and timeouts (Ok iff next sequence, next fragment id, same object hash, within the select timeout; otherwise a non-success status), plus the state it reads: select record frames, per-connection reset drops the select, sequence mod 16, first_error, hash input = exactly the object bytes, frame id +1 per completed fragment (C08).",
+    "level_note": "Not covered: the async bodies handle_select / handle_operate / handle_one_request (recording the select only on all-success, calling match_operate before actuating, answering every object, clearing the select on any other request) - a change confined to those bodies is invisible to this check. xxh64 collision-freedom assumed; clock is a harness stub.",
+    "not_covered": ["outstation::session::{handle_select,handle_operate,handle_controls} (async, iterate control headers through the dispatcher)"],
+    "assumptions": ["tokio::time::Instant::now replaced by a harness clock", "xxh64 collision-freedom"],
+}
+
 NA = {
     "C02": "whole-system history over real TCP and three threads: no function contract within reach expresses it (Kani has no threads, tokio I/O crashes the Kani compiler); its ingredients are decided under C03/C06/C08/C09/C10/C13",
     "C14": "every rule is control flow inside async fns that hold the physical layer (check_unsolicited, perform_unsolicited_response_series, wait_for_unsolicited_confirm, handle_deferred_read): outside both verifiers",
